@@ -66,4 +66,19 @@ def mapGet {κ ν : Type} [BEq κ] (m : List (κ × ν)) (k : κ) (zero : ν) : 
 def copyInto {α : Type} (dst src : List α) : List α :=
   src.take dst.length ++ dst.drop (min dst.length src.length)
 
+/-- `strings.ContainsAny(s, chars)` on byte strings (both arguments ASCII / single bytes in the translated code). -/
+def containsAny (s chars : Bytes) : Bool := s.any (chars.contains ·)
+
+/-- `strings.ReplaceAll(s, old, new)`: non-overlapping occurrences, left to right (`old` non-empty;
+an empty `old` returns `s` unchanged here, which the translated code never uses).  `n` = bytes of a
+matched occurrence still to skip. -/
+def replaceAllAux (old new : Bytes) : Nat → Bytes → Bytes
+  | _, [] => []
+  | n + 1, _ :: rest => replaceAllAux old new n rest
+  | 0, b :: rest =>
+    if old.isPrefixOf (b :: rest) then new ++ replaceAllAux old new (old.length - 1) rest
+    else b :: replaceAllAux old new 0 rest
+
+def replaceAll (s old new : Bytes) : Bytes := if old.isEmpty then s else replaceAllAux old new 0 s
+
 end Bio.GoRt
